@@ -98,7 +98,9 @@ def generate_scope(
 
     code += _code_gen(node.body.body, resolver, macro_definitions)
     code.append(PopScopeNode(resolver))
-    resolver.restore_scope(exports=False)
+    # symbols already known while the program is expanded (:= constants) are exported right away, so that
+    # .if / .for / := / macro arguments after the scope can use scope.name like any other known symbol.
+    resolver.restore_scope(exports=True)
     return code
 
 
